@@ -12,6 +12,7 @@ stage P: on generated problems of all three physics (planar + axisymmetric): per
 import math, os, shutil, sys, copy
 sys.path.insert(0, os.path.join(os.path.dirname(os.path.dirname(os.path.abspath(__file__))), "harness", "py"))
 from tools import vlib
+from tools.vlib import d2tok, tok2d
 import femmio, gen, lua_post, meshgeom
 from femmio import UNIT_M
 from runner import Run
@@ -201,6 +202,35 @@ def main(argv):
                                              dict(sequence=seq, model_selected=[l for l in range(nl) if sel[l]], quantity=name, got=got, expected=want))
                         ck.violation(key, "%s integral after the selection sequence %s is %.12g, the sum over the selected labels %s is %.12g"
                                      % (name, seq, got, [l for l in range(nl) if sel[l]], want), dict(files=run.files(), sequence=seq, physics=kind))
+                        break
+            # ---- stage B (electrostatics): the integrals themselves vs the integrand model Model/PostIntE.lean summed over the elements of
+            # the solution file in mesh order, for the selection each sequence leaves (elements outside external regions)
+            if kind == "e" and states and not any(l_.get("ext") for l_ in p.labels):
+                LC = dict(inches=0.0254, millimeters=0.001, centimeters=0.01, meters=1.0, mils=2.54e-05, microns=1.e-06)[p.units]
+                sol_ = femmio.read_solution(run.solution_path(), "e")
+                req = ["consts %d %s %s %s %s" % (1 if axi else 0, d2tok(p.depth * LC), d2tok(math.pi), d2tok(LC), d2tok(8.85418781762e-12))]
+                req += ["mat %s %s" % (d2tok(b_.get("ex", 1.0)), d2tok(b_.get("ey", 1.0))) for b_ in p.blockprops]
+                req += ["lab %d" % l_["block"] for l_ in p.labels]
+                req += ["n %s %s %s" % (d2tok(n_[0]), d2tok(n_[1]), d2tok(n_[2])) for n_ in sol_["nodes"]]
+                req += ["e %d %d %d %d" % (int(e_[0]), int(e_[1]), int(e_[2]), int(e_[3])) for e_ in sol_["elements"]]
+                asked = []
+                for q in range(min(len(seqs), len(states))):
+                    for name in ("area", "volume", "energy"):
+                        req.append("int %d %s" % (types[name], states[q]))
+                        asked.append((q, name))
+                repm, _, _ = vlib.run_lines([mx, "postint-e"], req, timeout=900)
+                for (q, name), rm in zip(asked, repm):
+                    got = out.get("S%d_%s" % (q, name), [None])[0]
+                    if got is None or not rm.startswith("x"):
+                        continue
+                    got = got.real if isinstance(got, complex) else got
+                    mv = tok2d(rm)
+                    stats["model_integrals_compared"] = stats.get("model_integrals_compared", 0) + 1
+                    sc = max(abs(mv), abs(got), 1e-300)
+                    # femmcli prints 16-17 significant digits
+                    if abs(got - mv) > 4e-15 * sc and abs(got - mv) > 1e-15 * max(sum(abs(v) for v in per[name] if v is not None), 1e-300):
+                        ck.obligation_broken("correspondence postint-e: %s integral of the real post-processor vs Model/PostIntE.lean summed in mesh order" % name,
+                                             dict(sequence=seqs[q], impl=got, model=mv, files=run.files()))
                         break
             # ---- geometry
             u = UNIT_M[p.units]
